@@ -4,11 +4,12 @@ D(kd, k, c, t) == [kind |-> kd, k |-> k, c |-> c, tsf |-> t]
 Menu_Q == { D("harmonic", 1, 1, 1), D("harmonic", 2, -1, 2), D("harmonic", 1, 0, 3), D("linear", 1, 0, 1), D("linear", 2, 0, 2), D("histogram", 0, 0, 1) }
 ZS_Q == {-1, 2}
 Starts_Q == {0, 1, 3}
-WitInit == TLCSet(1, FALSE) /\ TLCSet(2, FALSE)
-Wit == /\ ((outs # <<>> /\ pair[1].tsf > 1 /\ Last.t % pair[1].tsf # 0 /\ Last.B.f # 0) => TLCSet(1, TRUE))
-       /\ ((outs # <<>> /\ pair[1].tsf = 3 /\ Last.t % 3 = 0 /\ Last.A.f # 0) => TLCSet(2, TRUE))
-WitPost == TLCGet(1) /\ TLCGet(2)
-MCInit == Init /\ WitInit
+\* vacuity witnesses: the check searches a state satisfying each Witness<i> (a violation of NoWitness<i>)
+Witness1 == outs # <<>> /\ pair[1].tsf > 1 /\ Last.t % pair[1].tsf # 0 /\ Last.B.f # 0
+NoWitness1 == ~Witness1
+Witness2 == outs # <<>> /\ pair[1].tsf = 3 /\ Last.t % 3 = 0 /\ Last.A.f # 0
+NoWitness2 == ~Witness2
+MCInit == Init
 MCSpec == MCInit /\ [][Next]_evars
 Emit == (Len(outs) = MaxLen) => PrintT(<<"BEH", ToJson([pair |-> pair, first |-> firstStep, outs |-> outs])>>)
 =============================================================================
